@@ -89,6 +89,27 @@ theorem run_of_reachable (m : Lts σ ℓ) (s : σ) (h : Reachable m s) :
     rw [run_append m tr _ _ _ htr]
     simp [run, hst]
 
+/-- if every step from a state satisfying the (inductive) invariant strictly decreases a measure, every
+run is at most as long as the measure of its first state: no schedule is infinite -/
+theorem run_length_le (m : Lts σ ℓ) (Inv : σ → Prop) (μ : σ → Nat)
+    (hinv : ∀ s l s', Inv s → m.step s l = some s' → Inv s')
+    (hdec : ∀ s l s', Inv s → m.step s l = some s' → μ s' < μ s) :
+    ∀ (tr : List ℓ) (s s' : σ), Inv s → m.run s tr = some s' → tr.length + μ s' ≤ μ s := by
+  intro tr
+  induction tr with
+  | nil => intro s s' _ h; simp [run] at h; subst h; simp
+  | cons l ls ih =>
+    intro s s' hi h
+    simp only [run] at h
+    cases h1 : m.step s l with
+    | none => simp [h1] at h
+    | some s1 =>
+      simp only [h1] at h
+      have := ih s1 s' (hinv s l s1 hi h1) h
+      have := hdec s l s1 hi h1
+      simp only [List.length_cons]
+      omega
+
 end Lts
 
 /-- a Go channel: capacity, FIFO buffer, closed flag -/
